@@ -90,7 +90,8 @@ def evaluate__string_join(self: XPathFunction, context: ta.ContextType = None) -
     if self.context is not None:
         context = self.context
 
-    items = [self.string_value(s) for s in self[0].select(context)]
+    # the argument is atomized: the typed values of schema-typed nodes are cast to xs:string
+    items = [self.string_value(s) for s in self[0].atomization(context)]
 
     if len(self) == 1:
         return ''.join(items)
